@@ -21,6 +21,15 @@ All theorems are about the model functions that `drv_c17` executes and that the 
 `Assembly::DomainAssembler` (`buildThreadLayers` in the `dist` stream; `LCfg.step` / `CCfg.step` in the `trace`
 stream, where every recorded event log of a real run must be a run of these transition systems).
 
+Unbounded types.  `Index` (= `std::size_t`/`unsigned long`), `std::size_t` worker ids and counts, the `int` layer
+tags of `_build_layers` (`std::vector<int> elem_mask`, `int(layers.size())`), the `char` flags `_element_mask` and the
+`char` duplicate masks of the `Graph` render kernels used by `_build_graphs`, and the `Index` colour numbers are all
+modelled as unbounded `Nat` / `Bool`; `~Index(0)` sentinels are `Option`.  Narrowing, wrap-around and fixed-size
+effects are therefore invisible to every theorem below; what ties the C++ types to the model is the correspondence
+stream `boundary-sizes` of `checks/props/c17.py` (cells / layers / components / colours / degrees at 127..129,
+255..257, 1000/1001, thorough 32767..65537; actual worker threads 255..257; requested workers up to 65536).
+The combine lock is OBSERVED by the instrumented job's `try_lock` probe inside `combine()`, not by a hook.
+
 Not proved here (observed by the correspondence run and its oracle only): the scheduler's fairness (assumed, see
 the termination section); the error path of master-only (`assemble_master`) jobs; the C++ memory model (sequentially consistent
 atomic steps are assumed; ThreadSanitizer observes the real code). -/
@@ -522,7 +531,8 @@ theorem C17.history_independent {nF : Nat} {fs1 fs2 : List Bool} (h1 : Session n
 /-! ### the combine phase in detail (lock acquire / body / release), every strategy
 
 `xstep` splits `center` / `cleave` of the protocol machines into `lock`, `cbeg`, `cend`, `unlock`; the driver replays
-the recorded lock events (hook H2b) or, without them, the instrumented job's mutex probe on these machines. -/
+the recorded runs on these machines; the lock is observed by the instrumented job's `try_lock` probe inside
+`combine()` (kind 14 of the event log: the mutex must really be held while the body runs). -/
 
 /-- layered / layered_sorted: at most one worker holds `_thread_mutex`, at most one is in the body of `combine()`, and a body only
 runs while its worker holds the mutex - for all interleavings -/
